@@ -436,7 +436,7 @@ def required_operand_rule(ctx, rule):
         if not fn.file.endswith("frontend/parser.rs"):
             continue
         for bi, t in fn.calls():
-            if callee_def(t) != PARSER + "match_and_consume" or len(t["args"]) < 2 or tokens.resolve_token_set(F, fn, t["args"][1]) != {"Into"}:
+            if callee_def(t) != PARSER + "match_and_consume" or len(t["args"]) < 2 or tokens.resolve_token_set(F, fn, t["args"][1]) not in ({"Into"}, {"To"}):
                 continue
             n += 1
             top = common.top_fn(F, fn)
@@ -461,14 +461,19 @@ def required_operand_rule(ctx, rule):
                             edges.append((e[0], e[2] if t3["callee"]["name"] == "is_some" else e[1]))
                 for sb in range(len(fn.blocks)):
                     sw = tables.arms_complete(fn, sb)
-                    if sw and "Some" in sw[2] and bi in progress.deep_sources(fn, {"copy": {"l": sw[0]["l"], "p": []}}):
-                        edges.append((sb, sw[2]["Some"]))
+                    if sw and "Some" in sw[2]:
+                        srcs_ = progress.deep_sources(fn, {"copy": {"l": sw[0]["l"], "p": []}})
+                        # the test must be about the keyword itself, not about what an optional parser found after it
+                        others_ = [x for x in srcs_ if x != bi and (callee_def(fn.term(x)) or "").startswith(PARSER) and callee_def(fn.term(x)) != PARSER + "match_and_consume"]
+                        closures_other = any(fn.term(x)["callee"].get("name") in ("map", "and_then") for x in srcs_)
+                        if bi in srcs_ and not others_ and not closures_other:
+                            edges.append((sb, sw[2]["Some"]))
                 req = [b3 for b3, t3 in fn.calls() if _required_parser(F, t3)]
                 for sb, tg in edges:
                     if req and not path_to_return_avoiding(fn, req, start=tg):
                         ok = True
             rep.ob(rule, "operand-after-into::%s" % top.path.rsplit("::", 1)[-1], ok,
-                   "" if ok else "%s matches `into` and can then return normally without a required parser having run: `... into` with nothing after it is accepted as if there were no destination" % top.path.rsplit("::", 1)[-1],
+                   "" if ok else "%s matches `into` / `to` and can then return normally without a required parser having run: `... into` with nothing after it is accepted as if there were no destination" % top.path.rsplit("::", 1)[-1],
                    fn.loc(t["line"]), how="parse_assignment_lhs / expect_* on every path after the match")
     rep.floor(rule, n, 1, "optional `into` matches")
     bk = F.fn(PARSER + "parse_build_knock_helper")
